@@ -51,6 +51,7 @@ FRAGMENTS = [
             "self.execute_job": ("pure", "exec_val exec", 1, ()),
         },
         "skip_receivers": ("self._logger",),
+        "pending_arg_of": "self._send_result",
         "isinstance": {"Sentinel": "is_sentinel"},
         "consts": {},
     },
@@ -425,7 +426,7 @@ class Translator:
         m = self.method(self.frag["method"])
         if m.decorator_list or [a.arg for a in m.args.args] != ["self"] or m.args.vararg or m.args.kwarg:
             fail(m, "signature of %s" % self.frag["method"], self.fname)
-        names = self.assigned_names(m.body)
+        names = sorted(self.assigned_names(m.body))      # alphabetical: independent of the order of the initial assignments
         varmap = {v: "v_" + v for v in names}
         self.top_snapshot = "[" + "; ".join(varmap.values()) + "]"
         cx = Cx(self, "v", varmap, {}, [], None, lambda v, c: "(Done %s)" % self.top_snapshot, 0)
@@ -433,6 +434,13 @@ class Translator:
         inits = "".join("let %s := VNone in " % g for g in varmap.values())
         main = "Definition %s %s (fuel : nat) : prog :=\n  %s%s.\n" % (self.frag["name"], self.frag["params"], inits, body)
         ixs = "".join("Definition %s_ix_%s : nat := %d.\n" % (self.frag["name"], v, i) for i, v in enumerate(names))
+        # the local that holds the result not yet delivered: the argument of the call named in the fragment table
+        pa = self.frag.get("pending_arg_of")
+        if pa:
+            args = [c.args[0].id for c in ast.walk(m) if isinstance(c, ast.Call) and dotted(c.func) == pa and len(c.args) == 1 and isinstance(c.args[0], ast.Name)]
+            if len(set(args)) != 1 or args[0] not in names:
+                fail(m, "cannot tell which local is passed to %s (%s)" % (pa, args), self.fname)
+            ixs += "Definition %s_ix_pending : nat := %d.\n" % (self.frag["name"], names.index(args[0]))
         return "".join(self.loops) + main + ixs + \
             "(* locals of %s.%s, in snapshot order: %s *)\n" % (self.frag["cls"], self.frag["method"], ", ".join(names))
 
